@@ -196,6 +196,12 @@ pub fn replay(v: &Value) -> Outcome {
             if ok != exp_ok {
                 o.mismatch(&format!("parse-verdict/{name}"), json!({"ok": exp_ok, "text": text}), json!({"ok": ok, "err": kind}));
             } else if ok {
+                // C17: every comment of the text is delivered exactly once, in order
+                let cm: Vec<Value> = evs.iter().filter(|e| e["ev"] == "comment").map(|t| json!([t["s"], t["e"]])).collect();
+                let want_cm: Vec<Value> = exp.iter().filter(|t| t["ty"] == json!(3) || t["ty"] == json!(4)).map(|t| json!([t["s"], t["e"]])).collect();
+                if cm != want_cm {
+                    o.mismatch(&format!("comments/{name}"), json!({"comments": want_cm, "text": text}), json!(cm));
+                }
                 let leaves: Vec<Value> = evs
                     .iter()
                     .filter(|e| e["ev"] == "tok")
